@@ -191,6 +191,29 @@ fn forms() -> Vec<Form> {
             fs.push(Form { name: format!("logic{}{}{}", op.src(), l, r), ops: vec![(Kind::B, Expr::Bool(l)), (Kind::B, Expr::Bool(r))], build: Box::new(move |o| bin(op, o[0].clone(), o[1].clone())), show: Box::new(show_b) });
         }
     }
+    // every nesting of two logical operators (left- and right-nested) over all truth values:
+    // the inner right operand may only run when both guards let it through
+    for op1 in [BinOp::And, BinOp::Or] {
+        for op2 in [BinOp::And, BinOp::Or] {
+            for bits in 0..8u8 {
+                let (a, b, c) = (bits & 1 != 0, bits & 2 != 0, bits & 4 != 0);
+                fs.push(Form {
+                    name: format!("logic-right-nested{}{}{}{}{}", op1.src(), op2.src(), a, b, c),
+                    ops: vec![(Kind::B, Expr::Bool(a)), (Kind::B, Expr::Bool(b)), (Kind::B, Expr::Bool(c))],
+                    build: Box::new(move |o| bin(op1, o[0].clone(), Expr::Paren(Box::new(bin(op2, o[1].clone(), o[2].clone()))))),
+                    show: Box::new(show_b),
+                });
+                if bits % 2 == 0 {
+                    fs.push(Form {
+                        name: format!("logic-left-nested{}{}{}{}{}", op1.src(), op2.src(), a, b, c),
+                        ops: vec![(Kind::B, Expr::Bool(a)), (Kind::B, Expr::Bool(b)), (Kind::B, Expr::Bool(c))],
+                        build: Box::new(move |o| bin(op2, Expr::Paren(Box::new(bin(op1, o[0].clone(), o[1].clone()))), o[2].clone())),
+                        show: Box::new(show_b),
+                    });
+                }
+            }
+        }
+    }
     // nested logic: (a && b) || c
     fs.push(Form { name: "logic3".into(), ops: vec![(Kind::B, Expr::Bool(true)), (Kind::B, Expr::Bool(false)), (Kind::B, Expr::Bool(true))], build: Box::new(|o| bin(BinOp::Or, bin(BinOp::And, o[0].clone(), o[1].clone()), o[2].clone())), show: Box::new(show_b) });
     fs.push(Form { name: "bool==".into(), ops: vec![(Kind::B, Expr::Bool(true)), (Kind::B, Expr::Bool(false))], build: Box::new(|o| bin(BinOp::Eq, o[0].clone(), o[1].clone())), show: Box::new(show_b) });
